@@ -40,6 +40,9 @@ Definition E_ATTRIBUTE : Z := 104. Definition E_KEY : Z := 105.
 (* OS errors escaping from the filestore: 200 + kind *)
 Definition E_FILE_NOT_FOUND : Z := 201. Definition E_IS_A_DIRECTORY : Z := 202. Definition E_PERMISSION : Z := 204.
 Definition E_FUEL : Z := 999.
+(* internal control flow of the receiver: a fault handler abandoned the transaction (dest.py _TransactionAbandoned);
+   always caught by state_machine, never visible to the caller *)
+Definition E_ABANDONED : Z := 998.
 
 Definition oserr_exn (e : oserr) : Z :=
   match e with FileNotFoundError => E_FILE_NOT_FOUND | IsADirectoryError => E_IS_A_DIRECTORY
